@@ -96,6 +96,118 @@ CLAIMED.update({
         design="7 C10", note=SOLVER_NOTE, technique="Lean 4 models + partial proof; cross-algorithm differential correspondence"),
 })
 
+CLAIMED["C01"]["text"] = ("Lean 4 proof, for all binary inputs whose leaf species are species of a binary species tree: the "
+    "enumerator model lists exactly the valid reconciliations, each once; reconcile_exhaustive returns exactly the "
+    "minimum-cost valid reconciliations; inside spe <= dup + 2*floss every table cell of the THL recurrence equals the "
+    "minimum evaluated cost over valid reconciliations with that root species, reconcile_thl returns exactly the optimal "
+    "valid reconciliations (never empty, never failing) and equals the exhaustive solver; the coherence and "
+    "well-formedness hypotheses are shown necessary by kernel-checked witnesses.  Models tied to the code by differential "
+    "runs against the model and the brute-force specification.")
+CLAIMED["C01"]["technique"] = "Lean 4 proof (generic label-DP optimality, enumerator completeness) + differential correspondence"
+CLAIMED["C02"]["text"] = ("Lean 4 proof + exploration of one remaining link. Proved for all inputs with non-empty leaf syntenies "
+    "(coherent costs, binary species tree): every solution returned by the ordered solvers is a valid ordered "
+    "super-reconciliation of finite cost, its cost is <= the specification's optimum (Spec.optimum) and minimal among ALL "
+    "admissible mask labellings over all root orders (extended: all species mappings; base: LCA mapping); empty result when "
+    "no root order exists.  Not proved: adequacy of the executable oracle Spec.optimum w.r.t. sequence labellings "
+    "(explored by the check, which also ties the model to the code).")
+CLAIMED["C02"]["technique"] = "Lean 4 proof (label-DP optimality at bitmask labels) + differential correspondence against brute-force spec"
+CLAIMED["C03"]["text"] = ("Partial proof + exploration. Proved: the unordered table is exact for the DP's own cost of canonical "
+    "(LCA / INHERIT) labellings, decoded solutions are valid reconciliations, result = arg-min of the evaluated cost over "
+    "decoded solutions.  Not proved (stated in Lean): the DP's per-kind edge charges equal the evaluator's subset tests on "
+    "the materialised contents, and that restricting to canonical labellings loses nothing (the SuperDTL theorem).  Both "
+    "are explored against the brute-force Lean specification over EVERY labelling between required and allowed content.")
+CLAIMED["C04"]["text"] = ("Lean 4 proof for lca, thl, exh and the ordered solvers (every returned solution is a valid, complete "
+    "(super-)reconciliation of finite cost; ordered: child syntenies are subsequences, root holds every family once; "
+    "sloss = 0 included), validity of the species mapping for the unordered solvers; the unordered family-placement "
+    "clause is stated, not proved.  All clauses are also evaluated by the Lean specification Spec.validSol on every "
+    "solution the real algorithms return (both policies, refinements of multifurcating inputs).")
+CLAIMED["C04"]["technique"] = "Lean 4 proof (decoded solutions admissible) + validity specification evaluated on real outputs"
+CLAIMED["C05"]["text"] = ("Lean 4 proof for thl and exh (result = exactly the optimal valid reconciliations, each once) and for the "
+    "ordered solvers against all admissible mask labellings; for every solver the result entry keeps exactly the "
+    "arg-minima, duplicate-free, equal cost, empty iff no candidate.  The 'any' policy and the unordered solvers' "
+    "canonical-set clause are decided on generated inputs against the Lean specification's optimal set.")
+CLAIMED["C05"]["technique"] = "Lean 4 proof (all arg-min tags retained through the DP) + differential correspondence"
+
+CLAIMED.update({
+    "C06": dict(
+        text="Full Lean 4 proof for arbitrary non-negative costs (infinite transfer cost included, no coherence hypothesis): "
+             "for every valid solution the evaluator model's events equal a first-principles classification, and its "
+             "reconciliation, labelling (ordered: lost runs on sequences; unordered: charged edges) and total costs equal the "
+             "recount of an explicit event log built by walking paths; the cost is linear and monotone in the cost vector.  "
+             "Model tied to model/reconciliation.py and to the CLI's 'Minimum cost:' line on independently enumerated valid "
+             "mappings and labellings.",
+        design="7 C06", note=SOLVER_NOTE, technique="Lean 4 proof (evaluator = event-log recount) + differential correspondence"),
+    "C07": dict(
+        text="Full Lean 4 proof for all binary inputs with transfers forbidden and spe <= dup + 2*floss: the LCA reconciliation "
+             "maps every node to the longest common prefix of its leaves' species, is valid with finite cost, is optimal among "
+             "all valid reconciliations, and is the unique optimum when floss > 0 (sharpness examples kernel-checked).  Model "
+             "tied to reconcile_lca; also compared with thl / exh under an infinite transfer cost.",
+        design="7 C07", note=SOLVER_NOTE, technique="Lean 4 proof (local exchange inequality, induction on the tree) + differential correspondence"),
+    "C08": dict(
+        text="Lean 4 proof for the refinement enumerator on trees of any arity: graft / arrange counts ((2k-3)!!), every "
+             "arrangement is a binary tree over exactly the items, each binary tree over distinct items appears exactly once "
+             "up to child order, the topology-id 'ignore' mechanism is faithful for disjoint leaf sets, binarize is sound, "
+             "duplicate-free and has the product count; the extended solvers' result is the arg-min over all refinement pairs.  "
+             "Completeness of binarize for nested polytomies is proved for one polytomy over leaves and otherwise stated; the "
+             "check compares the real enumerator and the end-to-end optimum with an independent refinement generator.",
+        design="7 C08", note=TRUST + "ete3 copy / topology ids / Newick re-parse are exercised by the tie, not modelled.",
+        technique="Lean 4 proof (graft / un-graft bijection) + differential correspondence with an independent generator"),
+    "C11": dict(
+        text="Lean 4 proof modulo ete3's Newick round trip (a hypothesis of the theorems, validated on every generated tree): "
+             "for uniquely named trees, name-keyed mappings and syntenies parse back to what was serialised, the cost-name "
+             "table (generated from the source on every run) round-trips, and from_dict(to_dict(x)) reproduces trees, leaf "
+             "assignment, costs, mapping, labelling and ordered flag for the four classes, hence the same events and cost.  "
+             "Real from_dict/to_dict round trips through json are checked field by field on solver outputs and random "
+             "solutions.",
+        design="7 C11", note=TRUST + "ete3 Newick writer/reader, json: trusted, validated by the tie; empty names excluded (SafeNames).",
+        technique="Lean 4 proof over name-keyed association lists + generated cost table + round-trip correspondence"),
+    "C12": dict(
+        text="Lean 4 proof for label_internal (all names distinct and non-empty afterwards, given names untouched, new names "
+             "O#/S# with increasing indices skipping names present, fuel suffices), for the dispatch over the algorithm "
+             "registry regenerated from cli/reconcile.py on every run (decide: super-reconciliation algorithm without "
+             "syntenies -> status 1 and no output; dead else-branch), the outcome protocol and the <species>_<suffix> "
+             "rule.  Cost line, all >= any, draw acceptance and process-level behaviour are decided by running the real CLI "
+             "in-process on generated documented-format inputs.",
+        design="7 C12", note=TRUST + "argparse, json, file I/O are Python's own; TeX measurer stubbed.",
+        technique="Lean 4 proof + generated registry obligations + in-process CLI correspondence"),
+    "C13": dict(
+        text="Partial proof + exploration. Proved for all valid reconciliations: _compute_branches never raises (every "
+             "anchor removal and lookup succeeds), every object node has a branch of the evaluator's kind in its species and "
+             "every non-loss branch is such a node, loss pseudo-genes sit on the vertical branch they belong to, one transfer "
+             "branch per transfer whose target is an anchor of the transferred child's species.  Uniqueness of the branch per "
+             "node, the loss COUNT and the TikZ statement counts are stated in Lean and decided by the check on real "
+             "layout.compute / tikz.render output under a stub measurer (both orientations).",
+        design="7 C13", note=TRUST + "pseudo-genes identified by (lineage, species); TikZ text tokenised by the harness.",
+        technique="Lean 4 invariant proof over the branch-construction pass + differential correspondence"),
+    "C14": dict(
+        text="Full Lean 4 proof over exact rationals for positive sizes and non-negative parameters: horizontal layout = "
+             "transpose of the vertical layout with swapped sizes (both code paths transcribed separately), sibling boxes "
+             "disjoint and inside the parent's box, trunks inside their boxes and pairwise interior-disjoint, one entry per "
+             "species; anchor lookups proved for transfers, stated for duplication/speciation children.  Real layouts under "
+             "dyadic stub sizes are compared coordinate by coordinate with the model, and the clauses are evaluated directly.",
+        design="7 C14", note=TRUST + "IEEE rounding for non-dyadic sizes is not modelled; no TeX engine (stub measurer).",
+        technique="Lean 4 proof over Rat (mirror, disjointness) + exact coordinate correspondence"),
+    "C15": dict(
+        text="Lean 4 proof over templates REGENERATED from render/tikz.py on every run: generated obligations (each template "
+             "brace-balanced with holes at depth >= 0, statements terminated and one-line, one picture environment) plus "
+             "theorems that any admissible filling keeps the rendered text balanced and well-structured, colours are "
+             "interned before use, colour = nearest coloured ancestor, escape is left-invertible with no bare underscore, "
+             "labels list the families in order, greedy / balanced wrapping preserve words, widths and line count.  "
+             "textwrap.wrap is modelled as greedy filling (validated by the tie); real tikz.render output is re-assembled "
+             "by the model byte for byte.",
+        design="7 C15", note=TRUST + "the ast-based translator; textwrap on single-space-separated hyphen-free words.",
+        technique="Translator-generated Lean obligations + Lean 4 proofs + byte-level correspondence"),
+    "C20": dict(
+        text="Lean 4 proof: union-find with path compression and rank reports exactly the partition generated by its unions "
+             "(find, groups, to_list, unite's result), binary() enumerates each two-block coarsening once (2^(k-1)-1); BUILD "
+             "returns a displaying tree iff one exists, AllTrees returns exactly the displaying binary trees, each once; "
+             "BreakUp followed by BUILD preserves the clades.  The supertree clause is proved for the BreakUp triples of each "
+             "input (full clause stated).  Models tied to the code by exhaustive small trees / triple sets / union histories "
+             "against brute force.",
+        design="7 C20", note=TRUST + "Python set iteration order in binary() modelled as increasing order (compared as sets above 8 elements).",
+        technique="Lean 4 proof (rank invariant, BUILD soundness and completeness) + exhaustive differential correspondence"),
+})
+
 PENDING = "check not built yet in this round (planned: Lean 4 model + proof + correspondence, see DESIGN.md section 7)"
 
 
